@@ -36,7 +36,26 @@ func c08Alphabet() []c08Msg {
 	}
 	n := func(g *GenTorrent) uint32 { return uint32(g.NumPieces) }
 	blk := make([]byte, 16384)
-	return []c08Msg{
+	// bursts: a message the handler rejects (the peer gets closed) with further messages behind it in the same
+	// segment - the peer's reader is already offering the next message when the loop closes the peer
+	burst := func(name string, fs ...func(g *GenTorrent) refcodec.Msg) c08Msg {
+		return c08Msg{name, func(g *GenTorrent, cid byte) []byte {
+			var b []byte
+			for _, f := range fs {
+				b = append(b, f(g).Encode()...)
+			}
+			return b
+		}}
+	}
+	interested := func(g *GenTorrent) refcodec.Msg { return refcodec.Simple(refcodec.MsgInterested) }
+	bursts := []c08Msg{
+		burst("have(max)+interested+have(0)", func(g *GenTorrent) refcodec.Msg { return refcodec.Have(0xffffffff) }, interested, func(g *GenTorrent) refcodec.Msg { return refcodec.Have(0) }),
+		burst("request(n)+interested", func(g *GenTorrent) refcodec.Msg { return refcodec.Request(n(g), 0, 16384) }, interested),
+		burst("bitfield(long)+unchoke+have(0)", func(g *GenTorrent) refcodec.Msg { return refcodec.Bitfield(append(g.AllBitfield(), 0xff, 0xff)) },
+			func(g *GenTorrent) refcodec.Msg { return refcodec.Simple(refcodec.MsgUnchoke) }, func(g *GenTorrent) refcodec.Msg { return refcodec.Have(0) }),
+		burst("piece(n,0)+interested+piece(0,0)", func(g *GenTorrent) refcodec.Msg { return refcodec.Piece(n(g), 0, blk) }, interested, func(g *GenTorrent) refcodec.Msg { return refcodec.Piece(0, 0, blk) }),
+	}
+	return append(bursts, []c08Msg{
 		m("have(0)", func(g *GenTorrent, _ byte) refcodec.Msg { return refcodec.Have(0) }),
 		m("have(n-1)", func(g *GenTorrent, _ byte) refcodec.Msg { return refcodec.Have(n(g) - 1) }),
 		m("have(n)", func(g *GenTorrent, _ byte) refcodec.Msg { return refcodec.Have(n(g)) }),
@@ -102,7 +121,7 @@ func c08Alphabet() []c08Msg {
 		m("pex(ok)", func(g *GenTorrent, cid byte) refcodec.Msg {
 			return refcodec.Extended(cid+1, refcodec.PEXPayload(refcodec.CompactPeer(10, 0, 0, 9, 6881), nil))
 		}),
-	}
+	}...)
 }
 
 func mkC08() *Scenario {
@@ -326,7 +345,7 @@ func TestC08Lab(t *testing.T) {
 	if core.Thorough() {
 		depth = 3
 	}
-	rep.Rule = fmt.Sprintf("torrent in state {metadata unknown (magnet), allocating (gated), verifying, downloading (requests outstanding), seeding} x every sequence of <= %d attacker messages over an alphabet of %d syntactically valid messages with hostile fields (index n / 2^32-1, wrong-length bitfields, have-all/none, allowed-fast, request/cancel/reject shapes, unsolicited pieces, extension handshakes with bad sizes/types, metadata data/reject/request, PEX of bad length, unknown ids); afterwards the honest peer's exchange must complete", depth, len(c08Alphabet()))
+	rep.Rule = fmt.Sprintf("torrent in state {metadata unknown (magnet), allocating (gated), verifying, downloading (requests outstanding), seeding} x every sequence of <= %d attacker messages over an alphabet of %d syntactically valid messages with hostile fields (index n / 2^32-1, wrong-length bitfields, have-all/none, allowed-fast, request/cancel/reject shapes, unsolicited pieces, extension handshakes with bad sizes/types, metadata data/reject/request, PEX of bad length, unknown ids, and bursts: a message the handler rejects followed by further messages in the same segment); afterwards the honest peer's exchange must complete", depth, len(c08Alphabet()))
 	rep.Assumptions = []string{"byte-level framing attacks are covered by the reader-level part", "one attacker, one honest peer"}
 	var runs []Run
 	for _, st := range []string{"nometa", "allocating", "verifying", "downloading", "seeding"} {
